@@ -59,3 +59,33 @@ Theorem C06_is_opening_matches_source :
   (forall e, SchemaScanner.is_opening e = LexemeTie.opens (LexemeTie.schemascanner_name e)).
 Proof. exact (conj LexemeTie.json_is_opening (conj LexemeTie.enum_is_opening LexemeTie.schema_is_opening)). Qed.
 Print Assumptions C06_is_opening_matches_source.
+
+(* ---------- the enum-rule scanner (rules/enum/scanner.go; model Enum/EnumScanner.v) ---------- *)
+From JS Require Enum.EnumScanner Enum.EnumProofs.
+
+(* For a text the enum-rule scanner accepts and that has no '/' outside strings (no comments),
+   its events other than NewLine, mapped to the JSON scanner's event type, are exactly the
+   events of the JSON scanner on the same text, and the JSON scanner accepts it too.
+   [EnumScanner.Eos] is the accepting outcome of the enum scanner ([Done] is internal and never
+   returned by [EnumScanner.scan]).  no_comment bs = nc_scan false false bs tracks "inside a
+   string / after a backslash" and refuses a '/' outside strings. *)
+Theorem C06_enum_scanner_agrees_with_json_scanner : forall bs evs,
+  EnumScanner.scan false bs = (evs, EnumScanner.Eos) -> EnumProofs.no_comment bs = true ->
+  map EnumProofs.to_json_ev (filter (fun e => negb (EnumProofs.is_newline_ev e)) evs) =
+    fst (scan false bs) /\
+  snd (scan false bs) = Done.
+Proof. exact EnumProofs.enum_events_agree_with_json. Qed.
+Print Assumptions C06_enum_scanner_agrees_with_json_scanner.
+
+(* span_ok size e: e_begin < size; e_begin <= e_end (MultiLineAnnotationTextEnd: e_begin <= e_end + 1,
+   the empty text of /**/); e_end < size (InlineAnnotationEnd: e_end <= size, an inline annotation
+   closed by the end of the input) *)
+Theorem C06_enum_spans_inside : forall lc bs evs o, EnumScanner.scan lc bs = (evs, o) ->
+  Forall (EnumProofs.span_ok (N.of_nat (List.length bs))) evs.
+Proof. exact EnumProofs.enum_spans_inside. Qed.
+Print Assumptions C06_enum_spans_inside.
+
+Theorem C06_enum_error_position_inside : forall lc bs c p,
+  snd (EnumScanner.scan lc bs) = EnumScanner.Err c p -> (N.to_nat p < List.length bs)%nat.
+Proof. exact EnumProofs.enum_error_position_inside. Qed.
+Print Assumptions C06_enum_error_position_inside.
